@@ -114,7 +114,7 @@ def gen_case(r, framing, uniq, per_read):
 
 
 # ------------------------------------------------------------------ connection isolation
-def isolation_case(r, framing, uniq, nconn):
+def isolation_case(r, framing, uniq, nconn, common=False):
     """nconn connections writing/reading disjoint address ranges of one unit; chunks may cut frames (ASCII only)"""
     z = bool(r.getrandbits(1))
     def blk(boolean):
@@ -125,12 +125,15 @@ def isolation_case(r, framing, uniq, nconn):
     for c in range(nconn):
         base = 1000 * (c + 1)
         frames = []
-        for k in range(r.randint(2, 4)):
+        for k in range(r.randint(2, 4) + (2 if common else 0)):
             uniq[0] += 1
             m = r.choice([{'dir': REQ, 'fc': 6, 'address': base + k, 'value': uniq[0] & 0xFFFF},
                           {'dir': REQ, 'fc': 3, 'address': base, 'count': 4},
                           {'dir': REQ, 'fc': 16, 'address': base + 10, 'registers': [(uniq[0] + j) & 0xFFFF for j in range(3)]},
                           {'dir': REQ, 'fc': 1, 'address': base, 'count': 9}])
+            if common and k % 2:
+                # byte-identical PDUs on every connection (ranges no connection writes to): only transaction ids differ
+                m = [{'dir': REQ, 'fc': 3, 'address': 0, 'count': 4}, {'dir': REQ, 'fc': 1, 'address': 16, 'count': 9}, {'dir': REQ, 'fc': 4, 'address': 0, 'count': 2}][(k // 2) % 3]
             frames.append(ADU.build(framing, 1, S.encode(m), tid=(c * 100 + k)))
         stream = b''.join(frames)
         if framing == 'ascii':
@@ -185,7 +188,7 @@ def fine_isolation(run, r, uniq, n, prop='C17'):
     runs): 2..3 connections with disjoint address ranges must each produce exactly the bytes they produce alone"""
     for k in range(n):
         framing = ('tcp', 'tcp', 'ascii', 'rtu')[k % 4]
-        case = isolation_case(r, framing, uniq, 2 + (k % 3 == 2))
+        case = isolation_case(r, framing, uniq, 2 + (k % 3 == 2), common=(k % 2 == 1))
         # whole frames only (one per read): what is under test is the interleaving of the handlers, not chunking
         seed = r.getrandbits(32)
         fine_one(run, case, framing, seed)
@@ -288,6 +291,12 @@ def run(run):
                                          'verdict': 'each connection as when alone' if ok else 'differs'},
                                  sample_class=('iso', front, framing))
     if run.shard in (None, 0):
+        # the datagram front-ends behind a real UDP socket (sync server thread, Twisted reactor in a child process), including
+        # datagrams longer than one serial ADU: byte for byte what the in-process drivers (compared above) produce
+        from . import loopback
+        loopback.datagram_histories(run, r, uniq, run.scale(6, 80), big=True)
+        loopback.datagram_histories(run, r, uniq, run.scale(4, 80), big=False)
+        run.floor('histories over real UDP sockets', run.counters.get('loopback_histories:sync-udp', 0), 4)
         fine_isolation(run, r, uniq, run.scale(40, 1500))
         run.floor('line-level interleaving runs', run.counters.get('fine_grained_runs', 0), 20)
     run.floor('pairwise front-end comparisons', run.counters.get('pairwise_comparisons', 0), 1500 if run.shard is None else 80)
@@ -298,6 +307,8 @@ def run(run):
 
 def replay(run, case):
     case['layout']['units'] = {int(k): v for k, v in case['layout']['units'].items()}
+    if case.get('loopback') == 'dgram':
+        print('note: the replay re-runs the history through the in-process drivers only (the real-socket run needs the tier)')
     if 'fine_seed' in case:
         fine_one(run, case, case['framing'], case['fine_seed'])
     elif 'conns' in case:
